@@ -513,3 +513,62 @@ Proof.
   repeat split; try assumption.
   apply TP.pmf_eg_mixture. apply eg_fit_weights_nodup; assumption.
 Qed.
+
+(* ---------- the parametrised pipeline at the model's parameters IS the model ---------- *)
+Lemma bump_gen_model h s : bump_gen 0 (fun v => v + 1) h s = bump h s.
+Proof.
+  induction s as [|[k v] s IH]; cbn [bump_gen bump]; [reflexivity|].
+  destruct (Nat.eqb h k); [reflexivity | rewrite IH; reflexivity].
+Qed.
+
+Lemma qsum_series_gen_model hs : qsum_series_gen 0 (fun v => v + 1) hs = qsum_series hs.
+Proof.
+  unfold qsum_series_gen, qsum_series. generalize (@nil (nat * Q)).
+  induction hs as [|h hs IH]; intro s0; cbn [fold_left]; [reflexivity|].
+  rewrite bump_gen_model. apply IH.
+Qed.
+
+Lemma q_eg_gen_model hs : q_eg_gen 0 (fun v => v + 1) S.eg_weights hs = q_eg hs.
+Proof. unfold q_eg_gen, q_eg. rewrite qsum_series_gen_model. reflexivity. Qed.
+
+Theorem eg_fit_weights_gen_model prec n its :
+  eg_fit_weights_gen 0 (fun v => v + 1) S.eg_weights 0 (@SF.keep_pair T.weights)
+                     (fun d => SF.returned d prec) n its = eg_fit_weights prec n its.
+Proof.
+  unfold eg_fit_weights_gen, eg_fit_weights, eg_selected. cbv zeta.
+  assert (E : map (fun it => SF.keep_pair (q_eg_gen 0 (fun v => v + 1) S.eg_weights (it_hs it)) (it_gap it)
+                     (match it_lp it with Some xg => Some (q_lp (fst xg), snd xg) | None => None end)) its
+              = map iter_pair its).
+  { apply map_ext. intro it. unfold iter_pair. rewrite q_eg_gen_model. reflexivity. }
+  rewrite E. reflexivity.
+Qed.
+
+(* the two fitted-model theorems, stated on the parametrised pipeline at the model's parameters (the form
+   props/C10.v instantiates with the regenerated fragments) *)
+Definition eg_fit_weights_std (prec : Q) (n : nat) (its : list eg_iter) : T.weights :=
+  eg_fit_weights_gen 0 (fun v => v + 1) S.eg_weights 0 (@SF.keep_pair T.weights) (fun d => SF.returned d prec) n its.
+
+Theorem eg_weights_probability_std prec n its : 0 <= prec -> its <> [] ->
+  (forall it, In it its -> iter_ok it) ->
+  Forall (fun tw => 0 <= snd tw) (eg_fit_weights_std prec n its) /\
+  qsum (map snd (eg_fit_weights_std prec n its)) == 1 /\
+  NoDup (map fst (eg_fit_weights_std prec n its)) /\
+  (forall t, (t < n)%nat -> In t (map fst (eg_fit_weights_std prec n its))).
+Proof.
+  intros Hp Hne Hok. unfold eg_fit_weights_std. rewrite eg_fit_weights_gen_model.
+  destruct (eg_fit_weights_probability prec n its Hp Hne Hok) as [A B].
+  split; [exact A|]. split; [exact B|]. split; [apply eg_fit_weights_nodup; assumption|].
+  intros t Ht. apply pad_zero_cover. exact Ht.
+Qed.
+
+Theorem pmf_eg_unit_std prec n its outs : 0 <= prec -> its <> [] ->
+  (forall it, In it its -> iter_ok it) ->
+  Forall (fun o => o == 0 \/ o == 1) outs ->
+  let W := eg_fit_weights_std prec n its in
+  0 <= T.pmf_eg W outs /\ T.pmf_eg W outs <= 1 /\
+  fst (T.pmf_cols (T.pmf_eg W outs)) + snd (T.pmf_cols (T.pmf_eg W outs)) == 1 /\
+  T.pmf_eg W outs == qsum (map (fun tw => snd tw * nth (fst tw) outs 0) W).
+Proof.
+  intros Hp Hne Hok Ho. unfold eg_fit_weights_std. rewrite eg_fit_weights_gen_model.
+  apply pmf_eg_unit_for_fitted_models; assumption.
+Qed.
